@@ -25,6 +25,14 @@ def cells(tier):
         # a stopped task parked in its (slow, async) cancel callback when the next stop arrives
         sc = scen(pool(size, "SimpleTaskPool", ecb="plain", ccb="slow", slow_ids=[1, 2]), [[S("S", 3)], [["stop", 1], ["stop", 1]], [["stop_all"]]], outcomes=["ret"])
         out.append(cell(f"s{size} S3 stop1,stop1 stop_all slowccb", sc, MON))
+    # two SimpleTaskPools in one loop whose task ids coincide: a stop on one never touches the other's tasks
+    for size in [2, "inf"]:
+        sc = scen([pool(size, "SimpleTaskPool", ecb="plain", ccb="plain"), pool(size, "SimpleTaskPool", ecb="plain", ccb="plain")],
+                  [[S("S", 2)], [S("T", 2, p=1)], [["stop", 1]]], outcomes=["ret"])
+        out.append(cell(f"two simple pools s{size} S2|T2@1|stop(1)@0", sc, MON))
+        sc = scen([pool(size, "SimpleTaskPool", ecb="plain", ccb="plain"), pool(size, "SimpleTaskPool", ecb="plain", ccb="plain")],
+                  [[S("S", 2)], [S("T", 2, p=1)], [["stop_all", {"p": 1}]]], outcomes=["ret"])
+        out.append(cell(f"two simple pools s{size} S2|T2@1|stop_all@1", sc, MON))
     if not q:
         for size in [2, 3]:
             sc = scen(pool(size, "SimpleTaskPool", ecb="plain", ccb="plain"), [[S("S", 3)], [S("T", 2)], [cancel(rid("S", 0))], [["stop", 2]], [["stop", 1]]], outcomes=["ret", "exc"])
